@@ -598,3 +598,58 @@ Proof.
     apply (add_bubbles_lang_lemma ref vs W S). exists m. repeat split; [exact M1|].
     destruct strict; [now apply pairwise_weaken | exact M4].
 Qed.
+
+(* ------------------------------------------------------------------ walking the graph along a string *)
+Lemma strip_spec : forall l s r, strip l s = Some r <-> s = l ++ r.
+Proof.
+  induction l as [|a l IH]; intros s r; cbn [strip app].
+  - split; [intros H; now injection H | intros ->; reflexivity].
+  - destruct s as [|b s]; [split; discriminate|]. destruct (a =? b) eqn:E.
+    + apply Z.eqb_eq in E. subst b. rewrite IH. split; [intros ->; reflexivity | intros H; now injection H].
+    + apply Z.eqb_neq in E. split; [discriminate | intros H; injection H as H _; congruence].
+Qed.
+
+Lemma accepts_paths g : forall fuel n s,
+  accepts g fuel n s = true <-> exists p, In p (paths_fin g (sink g) fuel n) /\ flat_map (lab g) p = s.
+Proof.
+  induction fuel as [|f IH]; intros n s.
+  - cbn. split; [discriminate | intros (p & [] & _)].
+  - cbn [accepts paths_fin]. unfold sink.
+    destruct (strip (lab g n) s) as [rest|] eqn:E.
+    + apply strip_spec in E. subst s. destruct (succs g n) as [|m0 ss] eqn:S; cbn [is_nil].
+      * cbn [flat_map map app]. split.
+        -- intros H. destruct rest; [|discriminate]. exists [n]. split; [now left|]. cbn [flat_map]. reflexivity.
+        -- intros (p & [<-|[]] & Hp). cbn [flat_map] in Hp. rewrite app_nil_r in Hp.
+           apply (f_equal (@length Z)) in Hp. rewrite app_length in Hp. destruct rest; [reflexivity | cbn in Hp; lia].
+      * cbn [app]. rewrite existsb_exists. split.
+        -- intros (m & Hm & A). apply IH in A as (q & Hq & <-). exists (n :: q). split; [|reflexivity].
+           apply in_map. apply in_flat_map. now exists m.
+        -- intros (p & Hp & Hs). apply in_map_iff in Hp as (q & <- & Hq).
+           apply in_flat_map in Hq as (m & Hm & Hq). exists m. split; [exact Hm|]. apply IH.
+           cbn [flat_map] in Hs. apply app_inv_head in Hs. now exists q.
+    + split; [discriminate|]. intros (p & Hp & Hs). exfalso. apply in_app_or in Hp as [Hp|Hp].
+      * destruct (is_nil (succs g n)); [|destruct Hp]. destruct Hp as [<-|[]]. cbn [flat_map] in Hs.
+        assert (strip (lab g n) s = Some []) by (apply strip_spec; now rewrite <- Hs). congruence.
+      * apply in_map_iff in Hp as (q & <- & _). cbn [flat_map] in Hs.
+        assert (strip (lab g n) s = Some (flat_map (lab g) q)) by (apply strip_spec; now rewrite <- Hs). congruence.
+Qed.
+
+Lemma accepts_spec g fuel n s :
+  accepts g fuel n s = true <-> In s (strings (lang_fin g (sink g) fuel n)).
+Proof.
+  rewrite accepts_paths. unfold strings, lang_fin. rewrite map_map, in_map_iff. unfold word. cbn [fst].
+  split; intros (p & H1 & H2); exists p; auto.
+Qed.
+
+(* for the bubble graph: a string is accepted iff it is a haplotype sequence *)
+Lemma accepts_bubbles_lemma ref vs s : bb_wf ref vs = true -> bb_sorted vs = true ->
+  (accepts (add_bubbles ref vs) (length (add_bubbles ref vs)) 0 s = true <->
+   exists m, length m = length vs /\ pairwise false (select m vs) = true /\ s = apply_hap ref (select m vs)).
+Proof.
+  intros W S. rewrite accepts_spec. fold (paths (add_bubbles ref vs) 0).
+  change (map (word (add_bubbles ref vs)) (paths (add_bubbles ref vs) 0)) with (lang (add_bubbles ref vs) 0).
+  unfold strings. rewrite in_map_iff. split.
+  - intros (w & <- & Hw). apply (add_bubbles_lang_lemma ref vs W S) in Hw as (m & M1 & M2 & ->). exists m. auto.
+  - intros (m & M1 & M2 & ->). exists (apply_hap ref (select m vs), ids_of_mask 0 m). split; [reflexivity|].
+    apply (add_bubbles_lang_lemma ref vs W S). exists m. auto.
+Qed.
